@@ -585,6 +585,34 @@ func ZZ_C02() {
 		vr.Assert(txType == TransactionTypeNodeAccept || txType == TransactionTypeNodeRemove || txType == TransactionTypeNodeCancel, "only-node-operations-spend-without-script-inputs")
 		return
 	}
+	// how many keys of each script input were selected by the authorization data
+	selected := 0
+	{
+		off := 0
+		for i, u := range utxos {
+			if u.Type == OutputTypeScript || u.Type == OutputTypeNodeRemove {
+				cnt := 0
+				if as := tx.AggregatedSignature; as != nil {
+					for _, m := range as.Signers {
+						if m >= off && m < off+len(u.Keys) {
+							cnt++
+						}
+					}
+				} else if i < len(tx.SignaturesMap) {
+					cnt = len(tx.SignaturesMap[i])
+				}
+				vr.Assert(cnt >= int(u.Script[2]), "selected-keys-meet-the-script-threshold")
+				selected += cnt
+			}
+			off += len(u.Keys)
+		}
+	}
+	if selected == 0 {
+		// nothing to verify: every threshold is zero; the code lets only node accept/remove through
+		vr.Cover("zero-threshold-only")
+		vr.Assert(txType == TransactionTypeNodeAccept || txType == TransactionTypeNodeRemove, "unsigned-spend-only-for-node-accept/remove-with-zero-thresholds")
+		return
+	}
 	// the verifier call that authorised the inputs: the last batch / aggregate entry
 	var call *crypto.ZZVerifyCall
 	for i := range crypto.ZZVerifyLog {
